@@ -256,3 +256,11 @@ Theorem C04_build_optimal_with_dictionary : forall conn lexs params bow t oov fa
              BinInt.Z.le c (Lattice.path_cost conn p)).
 Proof. exact (LookupLattice.build_optimal_with_dictionary Buffer.the_cfg C04_fact_buffer_cfg). Qed.
 Print Assumptions C04_build_optimal_with_dictionary.
+
+(* ---- no maximum key length ---- *)
+(* C04_traverse_exact is unbounded in the length of the key and of the text.  What ties that to the code: nobody between the
+   tokenizer and the double array shortens the text handed to lookup -- build_lattice passes the whole current text and the byte
+   offset, LexiconSet::lookup and Lexicon::lookup pass both on unchanged, common_prefix_iterator keeps the whole slice and
+   TrieEntryIter::next runs `for i in self.offset..self.data.len()` (no `.min(..)`, no sub-slice, no fixed window) *)
+Fact C04_fact_lookup_input_untruncated : Generated.TrieBits.lookup_input_untruncated = true.
+Proof. vm_compute. reflexivity. Qed.
